@@ -609,11 +609,12 @@ package raft
 //@   ensures gisnum(s) ==> (result1 == nil) == (gparse(s) < 9223372036854775808)
 //@   ensures result1 == nil ==> result0 == gparse(s)
 
+// (C18: the file name <v1>-<v2><ext> is the encoding of the pair; what value.set / valueFile wrote is what openValue reads back, for the full uint64 range. C20: the identity file)
 //@ func openValue params(dir, ext)
-//@   props C05 C10
+//@   props C05 C10 C18 C20
 //@   modifies fs, fdone, fsize
 //@   ensures result1 != nil ==> result0 == nil
-//@   ensures [C10+C05.value-reopens] forall(a, b, old(fs[vfile(dir, ext, a, b)]) && old(forall(p, fs[p] && gmatch(VPat(dir, ext), p) ==> p == vfile(dir, ext, a, b))) ==> result1 == nil && result0 != nil && result0.v1 == a && result0.v2 == b && result0.dir == dir && result0.ext == ext)
+//@   ensures [C10+C05+C18.value-reopens] forall(a, b, old(fs[vfile(dir, ext, a, b)]) && old(forall(p, fs[p] && gmatch(VPat(dir, ext), p) ==> p == vfile(dir, ext, a, b))) ==> result1 == nil && result0 != nil && result0.v1 == a && result0.v2 == b && result0.dir == dir && result0.ext == ext)
 //@   ensures [C10.value-reopen-keeps-files] forall(a, b, old(fs[vfile(dir, ext, a, b)]) ==> fs == old(fs))
 
 //@ func SetIdentity params(storageDir, cid, nid)
